@@ -259,7 +259,11 @@ def gen_pitch(out):
     m = find("pitch_loop1", opn2, r"while\(\(hertz >= ([0-9.]+)\) && \(octave < (0x[0-9a-fA-F]+)\)\)\s*\{\s*hertz /= 2\.0;[^\n]*\n\s*octave \+= (0x[0-9a-fA-F]+);")
     t1, octmax, octstep = m.group(1), int(m.group(2), 16), int(m.group(3), 16)
     t2 = find("pitch_loop2", opn2, r"while\(hertz >= ([0-9.]+)\)\s*\{\s*hertz /= 2\.0;[^\n]*\n\s*mul_offset\+\+;").group(1)
-    lim = find("pitch_limit", opn2, r"if\(hertz < 0 \|\| hertz > ([0-9.]+)\)").group(1)
+    # frequencies beyond the limit are clamped to it before the two loops run (the clamp keeps the loops finite)
+    m_lim = find("pitch_limit", opn2, r"if\(hertz > ([0-9.]+)\)[^\n]*\n\s*hertz = ([0-9.]+);")
+    if m_lim.group(1) != m_lim.group(2):
+        raise AnchorError("pitch_limit", "the clamp value %s differs from the tested limit %s" % (m_lim.group(2), m_lim.group(1)))
+    lim = m_lim.group(1)
     find("pitch_round", opn2, r"ftone = octave \+ static_cast<uint32_t>\(hertz \+ 0\.5\);")
     find("pitch_mul_overflow", opn2, r"if\(\(mul \+ mul_offset\) > 0x0F\)\s*\{\s*mul_offset = 0;\s*mul = 0x0F;")
     clk2 = int(find("clock_opn2", fam, r"OPNFamilyTraits<OPNChip_OPN2>.*?nativeRate = (\d+),\s*nativeClockRate = (\d+)").group(2))
